@@ -197,7 +197,7 @@ class C09(PropBase):
             coq_doms.append(f"(mkDom {gq} {tq} {c_list([OFF + v for v in d['policy']])} {GE.c_expr(pp)})")
         return target, domain_graphs, domain_data, "[" + "; ".join(coq_doms) + "]"
 
-    def renamed_answer(self, case, prefix):
+    def renamed_answer(self, case, prefix, suffix=""):
         """The same query with every variable V<k> called <prefix><k> (selection nodes T_<prefix><k>): (expression text, event text) with the
         names mapped back, or the exception class - the procedure may not depend on how the variables are called."""
         import re
@@ -207,7 +207,7 @@ class C09(PropBase):
         from y0.graph import NxMixedGraph
         g = case["g"]
         def N(k):
-            return Variable(f"{prefix}{k}")
+            return Variable(f"{prefix}{k}{suffix}")
         def mk(extra_dir=(), d=None):
             d = d or {}
             return NxMixedGraph.from_edges(nodes=[N(v) for v in g["nodes"]], directed=[(N(a), N(b)) for a, b in d.get("dir", g["dir"])] + list(extra_dir),
@@ -215,12 +215,12 @@ class C09(PropBase):
         target = mk()
         domain_graphs, domain_data = [], []
         for k, d in enumerate(case["domains"]):
-            gr = mk([(Variable(f"T_{prefix}{v}"), N(v)) for v in d["transport"]], d)
-            topo = [Variable(f"T_{prefix}{t[1]}") if isinstance(t, list) else N(t) for t in d["topo"]]
+            gr = mk([(Variable(f"T_{prefix}{v}{suffix}"), N(v)) for v in d["transport"]], d)
+            topo = [Variable(f"T_{prefix}{t[1]}{suffix}") if isinstance(t, list) else N(t) for t in d["topo"]]
             domain_graphs.append((gr, topo))
             domain_data.append(({N(v) for v in d["policy"]}, PP[Variable(f"pi{k + 1}")](*[N(v) for v in g["nodes"]])))
         def rn(name):
-            return prefix + name[1:]
+            return prefix + name[1:] + suffix
         def var(t):
             if t["k"] == "C":
                 return CounterfactualVariable(name=rn(t["n"]), star=t["s"], interventions=frozenset(Intervention(name=rn(n), star=s_) for n, s_ in t["i"]))
@@ -237,7 +237,7 @@ class C09(PropBase):
             return "exception:" + type(ex).__name__
         if res is None:
             return None
-        back = lambda text: re.sub(r"(?<![A-Za-z_])" + re.escape(prefix) + r"(\d)(?![A-Za-z0-9_])", r"V\1", text)   # noqa: E731
+        back = lambda text: re.sub(r"(?<![A-Za-z_])" + re.escape(prefix) + r"(\d)" + re.escape(suffix) + r"(?![A-Za-z0-9_])", r"V\1", text)   # noqa: E731
         from y0.dsl import Distribution, Fraction, PopulationProbability, Probability, Product, Sum
         def bv(v):            # a variable with its name (and the names in its subscripts) mapped back
             if isinstance(v, CounterfactualVariable):
@@ -300,7 +300,9 @@ class C09(PropBase):
         import zlib
         if violation is None and zlib.crc32(repr(case).encode()) % 3 == 0:
             from y0.mutate import canonical_expr_equal
-            other = self.renamed_answer(case, "T")
+            # V<k> -> T<k> (a name that starts like a selection node's) or PI<k>K (a digit inside the name, as in gene names)
+            scheme = ("T", "") if zlib.crc32(repr(case).encode()) % 2 else ("PI", "K")
+            other = self.renamed_answer(case, *scheme)
             if exc or res is None or isinstance(other, str) or other is None:
                 same = (("exception:" + exc) if exc else None) == other if (exc or res is None) else False
             else:
@@ -308,7 +310,7 @@ class C09(PropBase):
                 same = mine_ev == other[1] and (other[0] == res.expression or canonical_expr_equal(other[0], res.expression))
             if not same:
                 shown = other if isinstance(other, str) or other is None else (str(other[0]), other[1])
-                violation, key = (f"with the variables renamed V<k> -> T<k> the answer is {shown}, not "
+                violation, key = (f"with the variables renamed V<k> -> {scheme[0]}<k>{scheme[1]} the answer is {shown}, not "
                                   f"{(str(res.expression), str(res.event)) if res is not None else (exc or None)}"), "C09/name-dependent"
         out_e = GE.c_expr(res.expression) if res is not None else "EOne"
         out_ev = "None" if (res is None or res.event is None) else f"(Some {c_cevent(res.event)})"
